@@ -113,13 +113,29 @@ def run(pid, tier, seed, args, t0):
         vs = [r['verdict'] for _, r in lst]
         name_verdict[name] = 'unsat' if all(v == 'unsat' for v in vs) else ('sat' if 'sat' in vs else 'unknown')
     faults = [r for r in results if r.get('disagreement')]
-    # ---- refutation of what is not discharged: bounded counter-model search + native replay
+    # ---- contract-level lemmas: closed formulas over ghost functions, discharged like any obligation (with the A-* / E-* axioms)
+    from pyvc.execcore import Obligation
+    from pyvc.state import State
+    lemma_obls = []
+    for lname, ltext in P.get('lemmas', []):
+        g = SP.SpecEval(State(), {}, 'saml2_tophat.sigver').bool(ltext)
+        lemma_obls.append(Obligation('lemma[%s]' % lname, [], g, 'lemma', {'text': ltext}))
+    if lemma_obls:
+        lres = solve.discharge(lemma_obls, tier, cross=(tier == 'thorough'), procs=1)
+        for o, r in zip(lemma_obls, lres):
+            o.fr = None
+            obls.append(o)
+            results.append(r)
+            by_name.setdefault(o.name, []).append((o, r))
+            name_verdict[o.name] = r['verdict']
     open_names = sorted(n for n, v in name_verdict.items() if v != 'unsat')
+    # ---- refutation of what is not discharged: bounded counter-model search + native replay
     refuted = {}
     if open_names:
         by_fn = {}
         for n in open_names:
-            by_fn.setdefault(by_name[n][0][0].fr.qual, set()).add(n)
+            if by_name[n][0][0].fr is not None:
+                by_fn.setdefault(by_name[n][0][0].fr.qual, set()).add(n)
         for q, names in sorted(by_fn.items()):
             for K in (2, 3):
                 todo = [n for n in names if n not in refuted]
